@@ -853,7 +853,7 @@ CHECK = Check(
     rule=(
         "case = serializer (line/json/autosep/length-prefixed/file-based, optional converter) x receive path x max_recv_size x "
         "1-8 good/malformed frames x partition with integer virtual arrival gaps x client EOF position (or none) x handler shape "
-        "(on_connection coroutine/generator, requests per handle() generator 0-3 or loop, yielded timeouts None / 0 / k+2^-(j+1), "
+        "(on_connection coroutine/generator, requests per handle() generator 0-3 or loop, yielded timeouts None / 0 / k+2^-(j+1) given by `yield T`, `async with asyncio.timeout(T)` or `with backend.timeout(T)` around the yield, "
         "reaction to parse error / TimeoutError, closing the client at a request, responses, work sleeps); the handler-side log "
         "(starts, yields, requests, parse errors, timeouts, GeneratorExit, finalisations, on_connection/on_disconnection, with "
         "virtual times) must equal the reference model's; non-trivial = a handle() generator restarts while the next frame is "
